@@ -9,7 +9,7 @@ Tie: `supdrv` drives the REAL supervisor.LocalSupervisor with real /bin/sh child
     `judge_case` below judges WITHOUT the model, stating the English property on the observed values.
 What the kernel does (signal delivery, reaping, process groups) is sampled, not proved.
 """
-import glob, itertools, os, re
+import glob, itertools, os, re, time
 from . import common as C
 
 NEAR_SLACK_US = 0          # t0 is taken before the deadline is fixed, so "timed out" ⇒ t1-t0 ≥ distance
@@ -108,7 +108,7 @@ def judge_case(lines):
                 if c["alive_at_ret"] == "1":
                     bad.append(("kill-ok-alive", f"Kill(deadline {c['dl']}) returned success for name {n} while the process was still alive (not a zombie) per /proc at the instant of the return"))
                 if c["group_after"] not in ("u", "0"):
-                    bad.append(("kill-ok-group-alive", f"Kill(deadline {c['dl']}) returned success for name {n} but {c['group_after']} member(s) of its process group were still alive after a 6 s grace"))
+                    bad.append(("kill-ok-group-alive", f"Kill(deadline {c['dl']}) returned success for name {n} but {c['group_after']} member(s) of its process group were still alive after a generous grace (6 s; 2 s in the orphan scenarios)"))
                 if cls in ("past", "zero") and c["alive_before"] == "1" and mode == "seq":
                     bad.append(("kill-past-ok", f"Kill with a deadline in the past ({c['dl']}) succeeded on the live process {n}"))
             else:
@@ -180,6 +180,10 @@ def judge_case(lines):
         if o["_"] == "exitwait" and o.get("event") == "0":
             bad.append(("event-withheld", f"no termination event within 3 s after the process was gone per /proc (scenario {o.get('scn')}: a background child of it is alive"
                         + (" and holds the output pipe)" if o.get("scn") != "1" else ")")))
+    if mode == "orphan":
+        # the scenarios "process ends, a background child of it lives on" have their own signatures, so that
+        # listing them as known findings cannot hide the same symptom in the ordinary scenarios
+        bad = [("orphan-" + r, d) for r, d in bad]
     # dedupe
     seen, res = set(), []
     for r, d in bad:
@@ -189,6 +193,16 @@ def judge_case(lines):
 
 
 # ---------------------------------------------------------------- running
+
+def oracle(ctx, trace):
+    """ctx.oracle, tolerant of the oracle binary being relinked by a concurrent lake build in the shared workspace"""
+    for _ in range(60):
+        try:
+            return ctx.oracle("supervisor", trace)
+        except (FileNotFoundError, PermissionError, OSError):
+            time.sleep(2)
+    return ctx.oracle("supervisor", trace)
+
 
 def drv(*a):
     return [os.path.join(C.BUILD, "supdrv")] + list(a)
@@ -210,7 +224,7 @@ def handle_trace(ctx, name, trace, cmdline, model_check=True):
     cases = C.parse_trace_cases(trace)
     mism = []
     if model_check:
-        summ, mism, raw = ctx.oracle("supervisor", trace)
+        summ, mism, raw = oracle(ctx, trace)
         if summ is None:
             ctx.violation("oracle-crash:supervisor", "rie-oracle supervisor produced no summary", raw[-2000:], found_input=False, tag="oracle")
         else:
@@ -246,7 +260,7 @@ def handle_trace(ctx, name, trace, cmdline, model_check=True):
             rtxt, again = "", []
             if os.path.exists(ro):
                 rc = C.parse_trace_cases(ro)
-                _, mism2, _ = ctx.oracle("supervisor", ro)
+                _, mism2, _ = oracle(ctx, ro)
                 for rcid, rl in rc.items():
                     again = judge_case(rl)
                     rtxt = "\nreplay of the prefix:\n" + case_text(rcid, rl, 200) + "\nmodel on the replay: " + ("\n".join(mism2) or "agrees") \
@@ -277,7 +291,7 @@ def orphans_enabled():
     if os.environ.get("VERIF_C19_ORPHANS"):
         return True
     return any(e.get("property") == "C19" and e.get("status") == "open" and
-               e.get("signature", "") in ("C19:kill-ok-group-alive", "C19:kill-exited-error", "C19:event-withheld")
+               e.get("signature", "").startswith("C19:orphan-")
                for e in C.known_findings().get("findings", []))
 
 
@@ -359,6 +373,6 @@ def replay(ctx, path):
         bad = judge_case(lines)
         print("\n".join(f"[{r}] {d}" for r, d in bad) or "no property-level complaint")
         bad_total += len(bad)
-    _, mism, _ = ctx.oracle("supervisor", o)
+    _, mism, _ = oracle(ctx, o)
     print("\n".join(mism) or "model agrees")
     return 1 if (bad_total or mism) else 0
